@@ -60,12 +60,17 @@ TECHNIQUE = "reference evaluator + reference partition on seeded/enumerated spec
 
 NSEL = {"quick": 1800, "thorough": 100000}
 NSELCTX = {"quick": 60, "thorough": 1500}
-NGROUP_FLOWS = {"quick": 6, "thorough": 300}     # flows per group_by/merge assignment
+NGROUP_FLOWS = {"quick": 10, "thorough": 300}     # flows per group_by/merge assignment
 
 STRS = ["a", "b", "a.b", "a.c.d", "b.x", "a.b.c", "zz", "a.5"]
 CLSS = ["int", "str", "float", "tuple", "list", "Marker", "CallableCls", "dict"]
 FNS_TOTAL = ["even", "pos", "true", "false", "hasctx"]
-FNS_RAISING = ["raise_value", "raise_on_str", "attr", "zerodiv", "ctxkey"]
+FNS_RAISING = ["raise_value", "raise_on_str", "attr", "zerodiv", "ctxkey",
+               # lena's own exception classes and a control-flow one: "an exception inside any
+               # leaf" is any exception
+               # (not StopIteration: PEP 479 turns it into RuntimeError inside Filter.run's
+               # generator, which is Python's doing, not lena's)
+               "raise_stopfill", "raise_lenakey", "raise_runtime"]
 PREDS = ["isdict", "eq5", "truthy", "raise", "len2", "false"]
 
 
@@ -162,7 +167,15 @@ def cases(tier, seed):
             for f in range(NGROUP_FLOWS[tier]):
                 rng = gen.rng_for(seed, "C15", "grp", n)
                 n += 1
-                yield {"k": "group", "group_by": gb, "merge": mg,
+                # the order in which the keys are listed must not matter (f = 0: as enumerated)
+                gbo, mgo = list(gb), list(mg)
+                if f % 2:
+                    gbo.reverse()       # every extension listed before its prefix
+                    mgo.reverse()
+                elif f:
+                    rng.shuffle(gbo)
+                    rng.shuffle(mgo)
+                yield {"k": "group", "group_by": gbo, "merge": mgo,
                        "form": rng.choice(["tuple", "tuple", "list", "auto"]),
                        "flow": rand_group_flow(rng)}
     yield {"k": "group_default"}
@@ -296,6 +309,17 @@ def make_fn(name):
                 raise TypeError("string data")
             return True
         return raise_on_str
+    if name in ("raise_stopfill", "raise_lenakey", "raise_runtime"):
+        import lena.core
+        exc = {"raise_stopfill": lena.core.LenaStopFill, "raise_lenakey": lena.core.LenaKeyError,
+               "raise_runtime": RuntimeError}[name]
+
+        def raise_odd(v, exc=exc):
+            # on values with an odd numeric view only: the other values are judged normally
+            if gen._num(gen.data_of(v)) % 2:
+                raise exc("leaf raises %s" % exc.__name__)
+            return True
+        return raise_odd
     if name == "attr":
         return lambda v: v.missing_attribute
     if name == "zerodiv":
@@ -501,7 +525,8 @@ def subnodes(node):
     yield node
 
 
-LEAF_EXCEPTIONS = ("LeafError", "TypeError", "AttributeError", "ZeroDivisionError", "KeyError")
+LEAF_EXCEPTIONS = ("LeafError", "TypeError", "AttributeError", "ZeroDivisionError", "KeyError",
+                   "LenaStopFill", "LenaKeyError", "RuntimeError", "StopIteration")
 
 
 def mismatch_kind(exp, got):
